@@ -1,8 +1,9 @@
 #!/bin/sh
-# tools/try_seed.sh <dir with patch.diff> <Cxx> [tier] : run a check against /repo with the seeded change applied, then undo.
-D="$(cd "$1" && pwd)"; P=$2; T=${3:-quick}
-test -z "$(git -C /repo status --porcelain)" || { echo "/repo not clean"; exit 2; }
-git -C /repo apply $D/patch.diff || exit 2
-cd /verif && ./check $P $T > /tmp/try_$P.log 2>&1; rc=$?
-git -C /repo checkout -- . 
-echo "check exit=$rc"; grep -c "^VIOLATION" /tmp/try_$P.log; grep -A1 "^VIOLATION" /tmp/try_$P.log | head -6; tail -1 /tmp/try_$P.log
+# tools/try_seed.sh <dir with patch.diff> <Cxx> [tier] : run a check against a scratch worktree of /repo with the seeded
+# change applied (VERIF_REPO points the check at it; /repo itself is never touched), then remove the worktree.
+D="$(cd "$1" && pwd)"; P=$2; T=${3:-quick}; W=/tmp/ts_$$
+git -C /repo worktree add -q --detach $W HEAD || exit 2
+git -C $W apply $D/patch.diff || { git -C /repo worktree remove --force $W; exit 2; }
+cd /verif && VERIF_REPO=$W VERIF_EVIDENCE_DIR=/tmp/ts_ev_$$ VERIF_REPLAY_DIR=/tmp/ts_ev_$$ ./check $P $T > /tmp/try_${P}_$$.log 2>&1; rc=$?
+git -C /repo worktree remove --force $W; rm -rf /tmp/ts_ev_$$
+echo "check exit=$rc"; grep -c "^VIOLATION" /tmp/try_${P}_$$.log; grep -A1 "^VIOLATION" /tmp/try_${P}_$$.log | head -6; tail -1 /tmp/try_${P}_$$.log
